@@ -684,7 +684,9 @@ def rules(tier):
             # C14-eb: --all_lower also lower-cases the keyboard-walk terminals
             ('C14.R22', _shared_rule('plumbing', 'terminals_stored_as_read')),
             # C14-fb: the save made on exhaustion written before max_probability is moved below every pre-terminal
-            ('C14.R23', _shared_rule('c08', 'r28_exhausted_session_restores_nothing'))]
+            ('C14.R23', _shared_rule('c08', 'r28_exhausted_session_restores_nothing')),
+            # C14-fa: the flags written to the save file come from ruleset_info.get('skip_case', False) - recorded as 'all_lower'
+            ('C14.R24', _shared_rule('plumbing', 'ruleset_info_keys'))]
 
 
 META = {
